@@ -196,6 +196,10 @@ def handleE (line : String) : Except String String := do
         -- the hypothesis of the run-level theorem `propagateProgramWith_preserves` (RunPropagation.lean)
         if tablesReach p₁ rt then acc := { acc with tags := "prop-tables-reach" :: acc.tags }
         else acc := acc.addDiff "prop-tables-not-reaching" "a block that is sent a table (or an entry block) has no value in the real fixpoint"
+        -- (b'') ... and whose entries are size-consistent (`allWSB`): with (b), (b') the hypotheses on the tables of
+        -- `normalizeOptimizeWith_preserves_partial` (Props.lean)
+        if allWSB rt then acc := { acc with tags := "prop-tables-wellsized" :: acc.tags }
+        else if ws0 then acc := acc.addDiff "prop-tables-illsized" "an entry of a table of the real fixpoint is not size-consistent"
         -- (c) they normally equal the tables of the model's own iteration
         let mt := computeTables p₁
         if tableMapsAgree p₁ rt mt then acc := { acc with tags := "prop-tables-equal" :: acc.tags }
